@@ -4,6 +4,7 @@ import (
 	"fmt"
 	"go/ast"
 	"go/token"
+	"go/types"
 	"sort"
 	"strings"
 
@@ -209,6 +210,117 @@ func ruleM2(c *Ctx) {
 	c.check(len(writes) >= 7, "M2", "writes-seen", fn.Pos(), fmt.Sprintf("%d stores through the receiver identified (the rebasing itself)", len(writes)))
 }
 
+// M6: relocation is refused for one reason only — the target span is shorter than the URI. Every `return false`
+// of AdjustOffs is selected (nearest branch that is not a debug switch) by a comparison whose refusal edge states
+// exactly "extent >= span length + 1", the span length being the Len of the position argument; no other refusal.
+func ruleM6(c *Ctx) {
+	fn := c.SFuncs["PsipURI.AdjustOffs"]
+	if fn == nil || len(fn.Params) < 2 {
+		c.fail("M6", "AdjustOffs", token.NoPos, "not found")
+		return
+	}
+	np := fn.Params[1]
+	cds := controlDeps(fn)
+	isSpanLen := func(key string, env *linEnv) bool {
+		v := env.vals[key]
+		for d := 0; d < 4 && v != nil; d++ {
+			switch x := v.(type) {
+			case *ssa.Field:
+				st, ok := x.X.Type().Underlying().(*types.Struct)
+				return ok && x.X == ssa.Value(np) && st.Field(x.Field).Name() == "Len"
+			case *ssa.UnOp:
+				if fa, ok := x.X.(*ssa.FieldAddr); ok && x.Op == token.MUL {
+					st, ok := fa.X.Type().Underlying().(*types.Pointer).Elem().Underlying().(*types.Struct)
+					if !ok || st.Field(fa.Field).Name() != "Len" {
+						return false
+					}
+					// address of the (spilled) position parameter
+					if al, ok := fa.X.(*ssa.Alloc); ok {
+						for _, r := range *al.Referrers() {
+							if sto, ok := r.(*ssa.Store); ok && sto.Addr == ssa.Value(al) && sto.Val == ssa.Value(np) {
+								return true
+							}
+						}
+					}
+					return false
+				}
+				return false
+			case *ssa.Convert:
+				v = x.X
+			case *ssa.ChangeType:
+				v = x.X
+			default:
+				return false
+			}
+		}
+		return false
+	}
+	n := 0
+	for _, b := range fn.Blocks {
+		r, ok := b.Instrs[len(b.Instrs)-1].(*ssa.Return)
+		if !ok || len(r.Results) != 1 {
+			continue
+		}
+		k, isC := r.Results[0].(*ssa.Const)
+		if !isC || k.Value.String() != "false" {
+			continue
+		}
+		n++
+		// nearest controlling branch that is not a bare bool switch (DBGon())
+		seen := map[*ssa.BasicBlock]bool{}
+		work := []*ssa.BasicBlock{b}
+		var dep *ctrlDep
+		for len(work) > 0 && dep == nil {
+			x := work[0]
+			work = work[1:]
+			for i := range cds[x] {
+				cd := cds[x][i]
+				if seen[cd.branch] {
+					continue
+				}
+				seen[cd.branch] = true
+				iff := cd.branch.Instrs[len(cd.branch.Instrs)-1].(*ssa.If)
+				if _, isCmp := iff.Cond.(*ssa.BinOp); isCmp {
+					dep = &cd
+					break
+				}
+				work = append(work, cd.branch)
+			}
+		}
+		key := "refusal-reason:" + itoa(n)
+		if dep == nil {
+			c.fail("M6", key, r.Pos(), "this refusal is not selected by any comparison")
+			continue
+		}
+		iff := dep.branch.Instrs[len(dep.branch.Instrs)-1].(*ssa.If)
+		env := newLinEnv(linOpts{})
+		facts := env.condFacts(iff.Cond, dep.idx == 0)
+		okf := false
+		why := "no linear fact on the refusal edge"
+		if len(facts) == 1 {
+			f := facts[0].L
+			spanCoef, others, sum := int64(0), 0, int64(0)
+			for t, cf := range f.T {
+				if cf == 0 {
+					continue
+				}
+				if isSpanLen(t, env) {
+					spanCoef += cf
+				} else {
+					others++
+					sum += cf
+				}
+			}
+			why = env.pretty(f) + "<=0"
+			// the extent is a difference of positions (coefficients sum to 0): it does not change when the
+			// URI sits elsewhere in its buffer
+			okf = spanCoef == 1 && f.C == 1 && others >= 2 && sum == 0
+		}
+		c.check(okf, "M6", key, iff.Cond.Pos(), "the refusal is taken exactly when the URI extent exceeds the length of the target span (refusal edge: "+why+"; expected span.Len - (end - start) + 1 <= 0, the extent a difference of positions): a span at least as long as the URI is never refused")
+	}
+	c.check(n == 1, "M6", "refusals", fn.Pos(), fmt.Sprintf("%d refusal return(s) in AdjustOffs; exactly one reason (span too short) is allowed", n))
+}
+
 func ruleM3(c *Ctx) {
 	fn := c.SFuncs["PsipURI.AdjustOffs"]
 	if fn == nil {
@@ -333,6 +445,7 @@ func init() {
 	register(&PropDef{
 		ID: "C18",
 		Rules: []Rule{
+			{"M6", "relocation is refused for one reason only: AdjustOffs has exactly one refusal return and it is selected by a comparison whose refusal edge is exactly extent >= span.Len + 1, span.Len being the Len of the position argument — a span at least as long as the URI is never refused", ruleM6},
 			{"M1", "AdjustOffs rebases every PField component of PsipURI (all but Scheme) with the same expression Offs - oldStart + newStart under its presence test, and Scheme.Offs = newStart; the old start is read before it is overwritten", ruleM1},
 			{"M2", "refusal does not mutate: no store through the receiver on any path to `return false`", ruleM2},
 			{"M3", "relocation cannot reach an explicit panic", ruleM3},
